@@ -272,6 +272,9 @@ func c07RunTxRecover(h *harnessDb, t *hTx) (seg string) {
 			seg = sb.String()
 		}
 	}()
+	if _, _, has := c07CtxParse(t); has { // store_c07_ctx.go: registrations through derived contexts
+		return c07CtxRunTx(h, t)
+	}
 	return h.runTx(t)
 }
 
@@ -496,6 +499,8 @@ func (g *histGen) c07Decorate(t *hTx) {
 		t.Vetoes = append(t.Vetoes, hVeto{Store: c07PseudoVeto, Change: "C",
 			Id: c07Stages[g.r.intn(len(c07Stages))] + ":" + c07KindDraw[g.r.intn(len(c07KindDraw))]})
 	}
+	// pre-commit / commit actions registered through contexts derived from the transaction's context (store_c07_ctx.go)
+	g.c07CtxDecorate(t)
 }
 
 func (g *histGen) c07GenAndRun(h *harnessDb) ([]hTx, string) {
@@ -612,6 +617,7 @@ func runStoreC07(o *opts) error {
 			if t.PreCommitErr {
 				stats["tx_precommit_err"]++
 			}
+			c07CtxStats(stats, &t)
 			for _, v := range t.Vetoes {
 				switch {
 				case v.Store == c07PseudoVeto:
